@@ -24,7 +24,7 @@ type Query {
 }
 type Node { id: ID! name: String child: Node }
 type Mutation { set(s: String): String }
-type Subscription { tick(s: String, n: Int): String }
+type Subscription { tick(s: String, n: Int): String ticks(s: String, n: Int): String }
 `
 
 // The two valid query texts and the invalid one of the model (Q1, Q2, QX).
@@ -62,6 +62,11 @@ func executableSchema() graphql.ExecutableSchema {
 			opCtx := graphql.GetOperationContext(ctx)
 			op := opCtx.Operation
 			root := map[ast.Operation]string{ast.Query: "Query", ast.Mutation: "Mutation", ast.Subscription: "Subscription"}[op.Operation]
+			if op.Operation == ast.Subscription {
+				if fs := graphql.CollectFields(opCtx, op.SelectionSet, []string{root}); len(fs) == 1 && fs[0].Name == "ticks" {
+					return ticks(ctx, opCtx, fs[0])
+				}
+			}
 			done := false
 			return func(ctx context.Context) *graphql.Response {
 				if done {
@@ -126,4 +131,40 @@ func execObject(buf *bytes.Buffer, opCtx *graphql.OperationContext, typeName str
 		}
 	}
 	buf.WriteByte('}')
+}
+
+// ticks is a subscription source with n events: `ticks(s: tag, n: n)` answers
+// {"<alias>":"s=<tag>;n=<n>;#<k>"} for k = 1..n and then ends. What it answers
+// is a function of the request alone; WHEN it answers is up to the test: on a
+// connection that carries a gate set (ws.go) event k waits for the gate
+// (tag, "e<k>") and the end of the stream for (tag, "close").
+func ticks(ctx context.Context, opCtx *graphql.OperationContext, f graphql.CollectedField) graphql.ResponseHandler {
+	args := f.ArgumentMap(opCtx.Variables)
+	tag, _ := args["s"].(string)
+	n := 0
+	switch v := args["n"].(type) {
+	case int64:
+		n = int(v)
+	case int:
+		n = v
+	}
+	var g *gateSet
+	if rec, _ := ctx.Value(recKey{}).(*reqRec); rec != nil {
+		g = rec.gateSet()
+	}
+	g.open(tag, "started")
+	k := 0
+	return func(ctx context.Context) *graphql.Response {
+		if k >= n {
+			g.wait(ctx, tag, "close")
+			return nil
+		}
+		k++
+		if !g.wait(ctx, tag, fmt.Sprintf("e%d", k)) {
+			return nil // the connection is gone
+		}
+		key, _ := json.Marshal(f.Alias)
+		val, _ := json.Marshal(fmt.Sprintf("s=%s;n=%d;#%d", tag, n, k))
+		return &graphql.Response{Data: []byte("{" + string(key) + ":" + string(val) + "}")}
+	}
 }
